@@ -16,6 +16,11 @@ import EncodingRs.Thm.C07LifeRepl
   BOM modes, the documented caller loop over `decode_to_utf{8,16}` makes at most
   `bytes + chunks + 6` calls.  (A panic of the model — `some none` — ends no loop: the relation only
   contains calls that returned.)
+* `DLifeReplLoopPre` (every prefix of a run), `life_repl_prefix_calls_le_events`,
+  **`life_repl_caller_loop_prefix_bound`**, **`life_repl_caller_loop_terminates`**: no prefix of a run has
+  more than `bytes + chunks + 6` calls.  That each single with-replacement call returns (the fuelled
+  `Decoder.replCall` is not `none`) is `Thm/C08ReplTerm.lean`.
+* Non-vacuity: a three-call run (Shift_JIS, sniffing, `FE 41 42 43 B1`) and a proper prefix of it.
 -/
 namespace EncodingRs.Thm.C08Loop
 open EncodingRs EncodingRs.Model EncodingRs.Lemmas.Core EncodingRs.Lemmas.FamLaws EncodingRs.Lemmas.Life
@@ -165,11 +170,76 @@ inductive DLifeReplLoop {F : Fam} : Decoder F → List Nat → Nat → Nat → P
       DReplAdmissible k false fuel d src bs cap →
       DLifeReplLoop t.d (src.drop t.read ++ rest) n c → DLifeReplLoop d (src ++ rest) (n + 1) c
 
-theorem life_repl_calls_le_events (v : Gen.Variant) (d : Decoder (famOfVariant v)) (stream : List Nat) (n c : Nat)
-    (h : DLifeReplLoop d stream n c) :
+/-- **every prefix of a run of the caller loop over the public with-replacement methods**:
+`DLifeReplLoop` without the requirement that the run is complete (`start` ends a derivation anywhere) -/
+inductive DLifeReplLoopPre {F : Fam} : Decoder F → List Nat → Nat → Nat → Prop
+  | start (d : Decoder F) (stream : List Nat) : DLifeReplLoopPre d stream 0 0
+  | final (k : Sink) (d : Decoder F) (rem : List Nat) (fuel : Nat) (bs : List (Budget × Budget)) (t : DReplRes F) :
+      Decoder.replCall k true fuel d rem bs = some (some t) → t.res = .inputEmpty → DLifeReplLoopPre d rem 1 0
+  | lastStep (k : Sink) (d : Decoder F) (rem : List Nat) (fuel : Nat) (bs : List (Budget × Budget)) (t : DReplRes F)
+      (cap n c : Nat) :
+      Decoder.replCall k true fuel d rem bs = some (some t) → t.res ≠ .inputEmpty → minCap k ≤ cap →
+      DReplAdmissible k true fuel d rem bs cap →
+      DLifeReplLoopPre t.d (rem.drop t.read) n c → DLifeReplLoopPre d rem (n + 1) c
+  | chunkDone (k : Sink) (d : Decoder F) (src rest : List Nat) (fuel : Nat) (bs : List (Budget × Budget))
+      (t : DReplRes F) (n c : Nat) :
+      Decoder.replCall k false fuel d src bs = some (some t) → t.res = .inputEmpty →
+      DLifeReplLoopPre t.d (src.drop t.read ++ rest) n c → DLifeReplLoopPre d (src ++ rest) (n + 1) (c + 1)
+  | chunkStep (k : Sink) (d : Decoder F) (src rest : List Nat) (fuel : Nat) (bs : List (Budget × Budget))
+      (t : DReplRes F) (cap n c : Nat) :
+      Decoder.replCall k false fuel d src bs = some (some t) → t.res ≠ .inputEmpty → minCap k ≤ cap →
+      DReplAdmissible k false fuel d src bs cap →
+      DLifeReplLoopPre t.d (src.drop t.read ++ rest) n c → DLifeReplLoopPre d (src ++ rest) (n + 1) c
+
+theorem DLifeReplLoop.toPre {F : Fam} {d : Decoder F} {stream : List Nat} {n c : Nat}
+    (h : DLifeReplLoop d stream n c) : DLifeReplLoopPre d stream n c := by
+  induction h with
+  | final k d rem fuel bs t hrun hres => exact .final k d rem fuel bs t hrun hres
+  | lastStep k d rem fuel bs t cap n c hrun hres hcap hadm _ ih =>
+    exact .lastStep k d rem fuel bs t cap n c hrun hres hcap hadm ih
+  | chunkDone k d src rest fuel bs t n c hrun hres _ ih => exact .chunkDone k d src rest fuel bs t n c hrun hres ih
+  | chunkStep k d src rest fuel bs t cap n c hrun hres hcap hadm _ ih =>
+    exact .chunkStep k d src rest fuel bs t cap n c hrun hres hcap hadm ih
+
+theorem DLifeReplLoopPre.prefix_closed {F : Fam} {d : Decoder F} {stream : List Nat} {n c : Nat}
+    (h : DLifeReplLoopPre d stream n c) : ∀ m, m ≤ n → ∃ c', c' ≤ c ∧ DLifeReplLoopPre d stream m c' := by
+  induction h with
+  | start d stream => intro m hm; exact ⟨0, Nat.le_refl _, by have : m = 0 := by omega
+                                                              subst this; exact .start d stream⟩
+  | final k d rem fuel bs t hrun hres =>
+    intro m hm
+    cases m with
+    | zero => exact ⟨0, Nat.le_refl _, .start d rem⟩
+    | succ m => have : m = 0 := by omega
+                subst this; exact ⟨0, Nat.le_refl _, .final k d rem fuel bs t hrun hres⟩
+  | lastStep k d rem fuel bs t cap n c hrun hres hcap hadm _ ih =>
+    intro m hm
+    cases m with
+    | zero => exact ⟨0, Nat.zero_le _, .start d rem⟩
+    | succ m =>
+      obtain ⟨c', hc', h'⟩ := ih m (by omega)
+      exact ⟨c', hc', .lastStep k d rem fuel bs t cap m c' hrun hres hcap hadm h'⟩
+  | chunkDone k d src rest fuel bs t n c hrun hres _ ih =>
+    intro m hm
+    cases m with
+    | zero => exact ⟨0, Nat.zero_le _, .start d (src ++ rest)⟩
+    | succ m =>
+      obtain ⟨c', hc', h'⟩ := ih m (by omega)
+      exact ⟨c' + 1, by omega, .chunkDone k d src rest fuel bs t m c' hrun hres h'⟩
+  | chunkStep k d src rest fuel bs t cap n c hrun hres hcap hadm _ ih =>
+    intro m hm
+    cases m with
+    | zero => exact ⟨0, Nat.zero_le _, .start d (src ++ rest)⟩
+    | succ m =>
+      obtain ⟨c', hc', h'⟩ := ih m (by omega)
+      exact ⟨c', hc', .chunkStep k d src rest fuel bs t cap m c' hrun hres hcap hadm h'⟩
+
+theorem life_repl_prefix_calls_le_events (v : Gen.Variant) (d : Decoder (famOfVariant v)) (stream : List Nat)
+    (n c : Nat) (h : DLifeReplLoopPre d stream n c) :
     ∀ pos, LoopInv v d pos → (∀ x ∈ stream, x < 256) → n ≤ (dref d stream pos).length + c + 1 := by
   have hnb := famOfVariant_needsBounded v
   induction h with
+  | start d stream => intro pos _ _; omega
   | final k d rem fuel bs t hrun hres => intro pos _ _; omega
   | lastStep k d rem fuel bs t cap n c hrun hres hcap hadm _ ih =>
     intro pos hd hb
@@ -211,6 +281,11 @@ theorem life_repl_calls_le_events (v : Gen.Variant) (d : Decoder (famOfVariant v
     have := he.2.1
     omega
 
+theorem life_repl_calls_le_events (v : Gen.Variant) (d : Decoder (famOfVariant v)) (stream : List Nat) (n c : Nat)
+    (h : DLifeReplLoop d stream n c) :
+    ∀ pos, LoopInv v d pos → (∀ x ∈ stream, x < 256) → n ≤ (dref d stream pos).length + c + 1 :=
+  life_repl_prefix_calls_le_events v d stream n c h.toPre
+
 /-- **C08, all 40 encodings, the three BOM modes, with replacement, from `new_decoder*`**: the
 documented caller loop over `decode_to_utf{8,16}`, with destinations of at least 4 bytes / 2 units
 and admissible inner calls, makes at most `bytes + chunks + 6` calls -/
@@ -222,5 +297,83 @@ theorem life_repl_caller_loop_bound (v : Gen.Variant) (bom : BomHandling) (strea
   have h2 := dref_length_le v _ (lifeInv_new v bom).cur stream hb 0
   rw [withheld_new] at h2
   omega
+
+/-- **C08, with replacement, prefixes of runs, from `new_decoder*`**: at no point of the caller loop
+over `decode_to_utf{8,16}` has it made more than `bytes + chunks + 6` calls.  (Each call of a prefix is
+one that returned; that a call does return — `Decoder.replCall … ≠ none` with `fuel ≥ src.len() + 8`,
+and `= some (some t)` under the no-panic hypotheses — is `Thm/C08ReplTerm.lean`.) -/
+theorem life_repl_caller_loop_prefix_bound (v : Gen.Variant) (bom : BomHandling) (stream : List Nat)
+    (hb : ∀ x ∈ stream, x < 256) (n c : Nat)
+    (h : DLifeReplLoopPre (Decoder.new (famOfVariant v) (nominalOf v) bom) stream n c) :
+    n ≤ stream.length + c + 6 := by
+  have h1 := life_repl_prefix_calls_le_events v _ stream n c h 0 (loopInv_new v bom) hb
+  have h2 := dref_length_le v _ (lifeInv_new v bom).cur stream hb 0
+  rw [withheld_new] at h2
+  omega
+
+/-- **termination**: no prefix of a run has more than `bytes + chunks + 6` calls -/
+theorem life_repl_caller_loop_terminates (v : Gen.Variant) (bom : BomHandling) (stream : List Nat)
+    (hb : ∀ x ∈ stream, x < 256) :
+    ¬ ∃ n c, stream.length + c + 6 < n ∧
+      DLifeReplLoopPre (Decoder.new (famOfVariant v) (nominalOf v) bom) stream n c := by
+  intro ⟨n, c, hlt, h⟩
+  have := life_repl_caller_loop_prefix_bound v bom stream hb n c h
+  omega
+
+/-! ### Non-vacuity
+
+Shift_JIS with BOM sniffing, stream `FE 41 42 43 B1`, four-byte UTF-8 destinations, with replacement,
+three calls:
+
+1. `[FE]`, not last → `InputEmpty`, `read = 1` (the byte is withheld);
+2. `[41 42 43 B1]`, last, destination of 6 bytes: the replay of `FE` is `Malformed` → U+FFFD (3 bytes),
+   then the second inner raw call is stopped by an admissible `OutputFull` after `A B C` (3 more bytes
+   written, 3 asked for, 3 left): `OutputFull`, `read = 3`, `had_errors`;
+3. `[B1]`, last → `InputEmpty`.
+
+The `replCall` equations hold by `rfl`. -/
+section demoRepl
+private def vR : Gen.Variant := .shiftJis
+private def dR0 : Decoder (famOfVariant vR) := Decoder.new (famOfVariant vR) (nominalOf vR) .sniff
+private def dR1 : Decoder (famOfVariant vR) := ⟨.seenUtf16BeFirst, .nominal none⟩
+private def dR2 : Decoder (famOfVariant vR) := ⟨.converting, .nominal none⟩
+private def dR3 : Decoder (famOfVariant vR) := ⟨.finished, .nominal none⟩
+
+private theorem hR1 : Decoder.replCall .utf8 false 9 dR0 [0xFE] [] = some (some ⟨.inputEmpty, 1, [], false, dR1⟩) := rfl
+private theorem hR2 : Decoder.replCall .utf8 true 12 dR1 [0x41, 0x42, 0x43, 0xB1]
+      [(.unlimited, .unlimited), (.unlimited, .full 3)]
+    = some (some ⟨.outputFull, 3, [0xFFFD, 0x41, 0x42, 0x43], true, dR2⟩) := rfl
+private theorem hR3 : Decoder.replCall .utf8 true 9 dR2 [0xB1] [] = some (some ⟨.inputEmpty, 1, [0xFF71], false, dR3⟩) := rfl
+
+private theorem admR2 : DReplAdmissible .utf8 true 12 dR1 [0x41, 0x42, 0x43, 0xB1]
+    [(.unlimited, .unlimited), (.unlimited, .full 3)] 6 := by
+  have e1 : dR1.rawCall .utf8 [0x41, 0x42, 0x43, 0xB1] true .unlimited .unlimited
+      = .ok (.malformed 1 0) 0 [] dR2 [([], .malformed 1 0, 0)] := rfl
+  have e2 : dR2.rawCall .utf8 [0x41, 0x42, 0x43, 0xB1] true .unlimited (.full 3)
+      = .ok .outputFull 3 [0x41, 0x42, 0x43] dR2 [([0x41, 0x42, 0x43], .outputFull, 3)] := rfl
+  rw [DReplAdmissible]
+  simp only [List.headD_cons, List.tail_cons]
+  rw [e1]
+  refine ⟨(innerAdmissibleB_iff .utf8 _ 6).1 (by decide), ?_⟩
+  intro l a _
+  simp only [List.drop_zero]
+  rw [DReplAdmissible]
+  simp only [List.headD_cons, List.tail_cons]
+  rw [e2]
+  refine ⟨(innerAdmissibleB_iff .utf8 _ _).1 (by decide), ?_⟩
+  intro l a h; cases h
+
+/-- the complete run -/
+example : DLifeReplLoop dR0 [0xFE, 0x41, 0x42, 0x43, 0xB1] 3 1 :=
+  DLifeReplLoop.chunkDone .utf8 dR0 [0xFE] [0x41, 0x42, 0x43, 0xB1] 9 [] _ 2 0 hR1 rfl
+    (DLifeReplLoop.lastStep .utf8 dR1 [0x41, 0x42, 0x43, 0xB1] 12 _ _ 6 1 0 hR2 (by intro h; cases h) (by decide)
+      admR2 (DLifeReplLoop.final .utf8 dR2 [0xB1] 9 [] _ hR3 rfl))
+
+/-- a proper prefix of it: two calls made, the stream not finished -/
+example : DLifeReplLoopPre dR0 [0xFE, 0x41, 0x42, 0x43, 0xB1] 2 1 :=
+  DLifeReplLoopPre.chunkDone .utf8 dR0 [0xFE] [0x41, 0x42, 0x43, 0xB1] 9 [] _ 1 0 hR1 rfl
+    (DLifeReplLoopPre.lastStep .utf8 dR1 [0x41, 0x42, 0x43, 0xB1] 12 _ _ 6 0 0 hR2 (by intro h; cases h) (by decide)
+      admR2 (DLifeReplLoopPre.start _ _))
+end demoRepl
 
 end EncodingRs.Thm.C08Loop
